@@ -131,6 +131,35 @@ func c03Gen(c *core.Ctx) func(yield func(c03Case) bool) {
 		if !ok {
 			return
 		}
+		// pointer-typed holders next to interface-typed ones: a wrapper does not fit a *T field, so
+		// such a start normally fails; if it succeeds, the pointer holder must not keep the raw
+		// component while the container publishes the wrapper
+		allGraphs(3, []int{scen.ENone, scen.EName, scen.EPtr}, false, func(e [][]int) bool {
+			anyPtr := false
+			for i := range e {
+				for _, k := range e[i] {
+					anyPtr = anyPtr || k == scen.EPtr
+				}
+			}
+			if !anyPtr {
+				return true
+			}
+			for node := 0; node < 3; node++ {
+				for plan := 1; plan < scen.NumWrapPlans; plan++ {
+					w := []int{0, 0, 0}
+					w[node] = plan
+					for _, base := range [][]int{{0, 1, 2}, {2, 1, 0}} {
+						if ok = yield(c03Case{scen.GraphProg{N: 3, Edges: e, Wrap: w, Base: base, Family: "n3-ptr"}, 0}); !ok {
+							return false
+						}
+					}
+				}
+			}
+			return true
+		})
+		if !ok {
+			return
+		}
 		// lazy components on the graph (created only when an eager component needs them, or by the
 		// look-ups after the start), one substituted node at every timing
 		allGraphs(3, three, false, func(e [][]int) bool {
@@ -227,7 +256,13 @@ func c03Run(c *core.Ctx) {
 			// what every holder holds right after Run, before any look-up of a lazy component (a
 			// look-up may re-create and re-populate a component the container dropped)
 			slotsOf := func(n *scen.N) []scen.Iface {
-				return append([]scen.Iface{n.S0, n.S1, n.S2, n.S3, n.S4, n.S5}, n.L0...)
+				out := append([]scen.Iface{n.S0, n.S1, n.S2, n.S3, n.S4, n.S5}, n.L0...)
+				for _, q := range append([]*scen.N{n.P0, n.P1, n.P2, n.P3}, n.LP...) { // pointer-typed holders
+					if q != nil {
+						out = append(out, q)
+					}
+				}
+				return out
 			}
 			atReturn := make([][]scen.Iface, p.N)
 			for i := range atReturn {
